@@ -35,7 +35,13 @@ REGISTRATION = {
             "DisplayShortest prints is read back as the same name up to the case of an abbreviated default part "
             "(displayShortest_roundtrip); the link path the cache creates for an accepted name is listed by DiskCache.Links "
             "as exactly the printed name, accepted again at the same path (pathToName_roundtrip). Finding N1's repair is "
-            "pinned (Tie n1_variant_is_repaired; a probe that says 'pinned' is a variant-regression violation). A run in "
+            "pinned (Tie n1_variant_is_repaired; a probe that says 'pinned' is a variant-regression violation). End to end: "
+            "for every request string every name-taking gin handler refuses or uses one manifest path below Clean(models) "
+            "(handler_name_confined, with getExistingName over-approximated by the relation ExistingResult), /api/blobs and "
+            "every layer digest of an untrusted manifest (blob_handler_confined), the new client's handlers "
+            "(registry_handler_confined), every digest parser (digest_clause_all; the cache maps all spellings of a digest to "
+            "one file, the legacy store only the separator spellings); the real gin engine and Registry.Unlink/ResolveLocal are "
+            "driven over scratch stores with decoys outside and the file system is compared before/after every request. A run in "
             "which any outcome class of a modelled entry point is not exercised fails closed.",
     "design_ref": "DESIGN.md §5 C13",
     "note": COMMON_NOTE + "Modelled, not verified: path/filepath Clean/Join (unix build; own component model, "
